@@ -182,6 +182,24 @@ func (e *Env) resolveType(name string) types.Type {
 				return o.Type()
 			}
 		}
+		// a type declared inside a function of the package
+		var find func(s *types.Scope) types.Type
+		find = func(s *types.Scope) types.Type {
+			if o := s.Lookup(name); o != nil {
+				if _, ok := o.(*types.TypeName); ok {
+					return o.Type()
+				}
+			}
+			for i := 0; i < s.NumChildren(); i++ {
+				if t := find(s.Child(i)); t != nil {
+					return t
+				}
+			}
+			return nil
+		}
+		if t := find(pkg.Scope()); t != nil {
+			return t
+		}
 	}
 	e.fail("unknown type %q", name)
 	return nil
@@ -800,6 +818,20 @@ func (x *Exec) compileCall(env *Env, e *SCall) Value {
 		x.declareFun("brune", "(declare-fun brune ((Array Int Int) Int Int) Int)")
 		x.declareFun("brunelen", "(declare-fun brunelen ((Array Int Int) Int Int) Int)")
 		return TV{App(fn, SInt, Select(h, Sel("s-ref", a.T)), Add(Sel("s-off", a.T), i.T), Sub(Sel("s-len", a.T), i.T)), ty}
+	case "sprintf", "errorf":
+		var ops []*Term
+		for i := range e.Args {
+			a := argTV(i)
+			if i > 0 && a.T.Sort != SIface {
+				env.fail("%s: operand %d must be boxed with iface(...)", e.Fun, i)
+			}
+			ops = append(ops, a.T)
+		}
+		t := x.formatApp(e.Fun, ops)
+		if e.Fun == "errorf" {
+			return TV{t, types.Universe.Lookup("error").Type()}
+		}
+		return TV{t, tString}
 	case "mkstruct":
 		// mkstruct(T, v1, v2, …): the struct value T{v1, v2, …}
 		id, ok := e.Args[0].(*SIdent)
@@ -924,6 +956,10 @@ func (x *Exec) compileCall(env *Env, e *SCall) Value {
 		return TV{App("fp.isNaN", SBool, argTV(0).T), tBool}
 	case "isInf":
 		return TV{App("fp.isInfinite", SBool, argTV(0).T), tBool}
+	case "posinf":
+		return TV{Atom("(_ +oo 11 53)", SF64), tFloat}
+	case "neginf":
+		return TV{Atom("(_ -oo 11 53)", SF64), tFloat}
 	case "fabs", "math.Abs":
 		a := argTV(0)
 		return TV{App("fp.abs", a.T.Sort, a.T), a.Ty}
